@@ -115,6 +115,11 @@ func ActiveIdx() []int {
 	return out
 }
 
+// DetPK returns a valid BLS public key that belongs to no fixture validator (deterministic in i).
+func DetPK(i int) []byte {
+	return detSK2(byte(i), byte(100+i/251%100)).GetPublicKey().Serialize()
+}
+
 // Subnet computes a validator key's subnet independently of network/commons: the first five bytes of the key
 // read as a big-endian number, modulo 128 (network/commons.ValidatorSubnet: first ten hex digits mod subnet count).
 func Subnet(pk []byte) int {
